@@ -216,13 +216,13 @@ type valPlan struct {
 }
 
 type genCtx struct {
-	P       *Prog
-	ex      *Exec
-	req     *modelReq
-	vals    []string
-	pkg     *types.Package
-	imports map[string]bool
-	tooBig  bool
+	P        *Prog
+	ex       *Exec
+	req      *modelReq
+	vals     []string
+	pkg      *types.Package
+	imports  map[string]bool
+	tooBig   bool
 	declared map[string]bool
 }
 
